@@ -24,6 +24,7 @@ type rdCase struct {
 	Pos    string `json:"pos"`
 	VSeed  int64  `json:"vseed,omitempty"`
 	Pre    string `json:"pre,omitempty"` // Content-Type already on the response when the handler renders ("-" = none)
+	Outer  int    `json:"outer,omitempty"` // 2: an application-wide Renderer with OTHER options runs before the Renderer under test (the nearest one configures the handler); 1: not
 	HeadFirst int `json:"headfirst,omitempty"` // 2: the same route is requested with HEAD first (same Flame, same render call), then with GET; 1: not
 	Sub    int    `json:"sub,omitempty"` // 1: the handler serves a sub-request (which renders too) through the same Flame first
 }
@@ -109,6 +110,12 @@ func rdReplay(raw json.RawMessage, idx int, tr *traceWriter) {
 	if c.Pre == "" {
 		c.Pre = []string{"-", "text/html; charset=utf-8", "application/x-custom"}[(c.VSeed/4)%3]
 	}
+	if c.Outer == 0 {
+		c.Outer = 1 + int((c.VSeed/64)%3)/2
+	}
+	if c.Pos != "after" {
+		c.Outer = 1 // "before" asks whether a handler AHEAD of every Renderer gets one: there must be none ahead of it
+	}
 	if c.HeadFirst == 0 {
 		c.HeadFirst = 1 + int((c.VSeed/16)%3)/2
 	}
@@ -185,6 +192,9 @@ func rdReplay(raw json.RawMessage, idx int, tr *traceWriter) {
 		if c.Pre != "-" {
 			fc.ResponseWriter().Header().Set("Content-Type", c.Pre)
 		}
+	}
+	if c.Outer == 2 {
+		f.Use(flamego.Renderer(flamego.RenderOptions{Charset: "outer-" + c.Cs, JSONIndent: c.Indent + " ", XMLIndent: c.Ind2 + "  "}))
 	}
 	if c.Pos == "after" {
 		f.Use(flamego.Renderer(opt), pad)
